@@ -30,6 +30,7 @@ type Verifier struct {
 	ImplCache      map[string][]int
 	TypesByPkgName map[string]*types.Package
 	SpecFiles      []string
+	Orphans        []*Contract // contracts whose function no longer exists
 }
 
 func loadProgram(repo string, specFiles []string) (*Verifier, error) {
@@ -130,7 +131,11 @@ func loadProgram(repo string, specFiles []string) (*Verifier, error) {
 			if !c.Lib {
 				key = pkgName + ":" + k
 				if _, ok := v.Funcs[key]; !ok {
-					return nil, fmt.Errorf("%s: contract for unknown function %q", c.Where, key)
+					// the function the contract was written for is gone (renamed, inlined, closure removed): the
+					// contract cannot be discharged; checks of the properties it serves report this as a violation
+					c.Key = key
+					v.Orphans = append(v.Orphans, c)
+					continue
 				}
 			}
 			if _, dup := v.DB.Contracts[key]; dup {
